@@ -158,9 +158,20 @@ Proof.
   - intros e [].
 Qed.
 
+Lemma good_data c sid size dlen padded ended : k_mode c <> 2 -> good c (data_step c sid size dlen padded ended).
+Proof.
+  intros M. unfold data_step. destruct (find_active sid (k_streams c)) as [s|]; [|apply good_id].
+  destruct ((0 <? size) && _); [apply good_close_one, M|].
+  destruct (negb (x_ng s =? -1)).
+  - destruct ((1024 <=? _) || ended); [apply good_close_one, M|].
+    destruct (on_read _ _ _) as [pd' pu']. apply good_update; [apply pres_set_fc|exact M].
+  - destruct (if padded then _ else _) as [pd' pu'].
+    destruct ended; [apply good_close_one, M|]. apply good_update; [apply pres_set_fc|exact M].
+Qed.
+
 Lemma good_exec c o : k_mode c <> 2 -> (forall dl, o <> ONew dl) -> good c (exec_op c o).
 Proof.
-  intros M Hn. destruct o as [dl|sid ended fs|sid size ended|sid code| |id code|sid inc| |sid|ms]; cbn [exec_op].
+  intros M Hn. destruct o as [dl|sid ended fs|sid size ended|sid code| |id code|sid inc| |sid|ms|sid dlen plen ended|sid val]; cbn [exec_op].
   - exfalso. eapply Hn. reflexivity.
   - destruct (find_active sid (k_streams c)) as [s|]; [|apply good_id].
     destruct (negb (meta_ok fs)); [apply good_close_one, M|].
@@ -169,13 +180,7 @@ Proof.
     + apply good_update; [apply pres_set_hdr|exact M].
     + apply good_update; [apply pres_set_ng|exact M].
     + apply good_close_one, M.
-  - destruct (find_active sid (k_streams c)) as [s|]; [|apply good_id].
-    destruct ((0 <? size) && _); [apply good_close_one, M|].
-    destruct (negb (x_ng s =? -1)).
-    + destruct ((1024 <=? _) || ended); [apply good_close_one, M|].
-      destruct (if x_pd s + size =? 0 then _ else _) as [pd' pu'].
-      apply good_update; [apply pres_set_fc|exact M].
-    + destruct ended; [apply good_close_one, M|]. apply good_update; [apply pres_set_fc|exact M].
+  - apply good_data, M.
   - destruct (find_active sid (k_streams c)) as [s|]; [|apply good_id]. apply good_close_one, M.
   - apply good_id.
   - destruct ((0 <? id) && Z.even id); [apply good_close_conn; reflexivity|].
@@ -194,6 +199,8 @@ Proof.
   - apply good_close_one, M.
   - constructor; cbn [fst snd k_streams k_next k_mode]; auto; try (intros e []);
       try (intros k; unfold term_count; cbn; lia); try (intros H; contradiction).
+  - apply good_data, M.
+  - destruct ((sid =? 4) && (2147483647 <? val)); [apply good_close_conn; reflexivity|apply good_id].
 Qed.
 
 Lemma good_settle c r : good c r -> good c (settle r).
@@ -245,7 +252,7 @@ Proof.
     + apply NewCase. auto.
     + left. cbn [exec_op]. constructor; cbn [fst snd k_streams k_next k_mode]; auto;
         try (intros k; unfold term_count; cbn; lia); try (intros e []).
-  - destruct o as [dl|sid ended fs|sid size ended|sid code| |id code|sid inc| |sid|ms];
+  - destruct o as [dl|sid ended fs|sid size ended|sid code| |id code|sid inc| |sid|ms|sid dlen plen ended|sid val];
       try (left; apply good_settle, good_exec; [exact E|congruence]).
     (* ONew: settle does nothing after a successful creation, and preserves good otherwise *)
     destruct (NewCase dl (or_introl E)) as [G|(A & B & C & D & F & Mo)].
@@ -424,22 +431,29 @@ Proof.
   unfold active in A. rewrite D in A. discriminate.
 Qed.
 
+Lemma data_frozen c sid size dlen padded ended : inv c ->
+  frozen (k_streams c) (k_streams (fst (data_step c sid size dlen padded ended))).
+Proof.
+  intros I. pose proof (i_nodup _ I) as N. unfold data_step.
+  destruct (find_active sid (k_streams c)) as [s|] eqn:F; [|apply frozen_refl].
+  destruct ((0 <? size) && _); [apply frozen_close|].
+  destruct (negb (x_ng s =? -1)).
+  - destruct ((1024 <=? _) || ended); [apply frozen_close|].
+    destruct (on_read _ _ _) as [pd' pu']. cbn [fst with_streams k_streams]. eapply frozen_update; eauto.
+  - destruct (if padded then _ else _) as [pd' pu'].
+    destruct ended; [apply frozen_close|]. cbn [fst with_streams k_streams]. eapply frozen_update; eauto.
+Qed.
+
 Lemma exec_frozen c o : inv c -> frozen (k_streams c) (k_streams (fst (exec_op c o))).
 Proof.
   intros I. pose proof (i_nodup _ I) as N.
-  destruct o as [dl|sid ended fs|sid size ended|sid code| |id code|sid inc| |sid|ms]; cbn [exec_op].
+  destruct o as [dl|sid ended fs|sid size ended|sid code| |id code|sid inc| |sid|ms|sid dlen plen ended|sid val]; cbn [exec_op].
   - destruct (k_mode c =? 0); cbn [fst k_streams]; [|apply frozen_refl]. intros s H _. apply in_or_app. left. exact H.
   - destruct (find_active sid (k_streams c)) as [s|] eqn:F; [|apply frozen_refl].
     destruct (negb (meta_ok fs)); [apply frozen_close|].
     destruct (headers_result s ended fs); cbn [fst with_streams k_streams];
       try apply frozen_refl; try (eapply frozen_update; eauto); apply frozen_close.
-  - destruct (find_active sid (k_streams c)) as [s|] eqn:F; [|apply frozen_refl].
-    destruct ((0 <? size) && _); [apply frozen_close|].
-    destruct (negb (x_ng s =? -1)).
-    + destruct ((1024 <=? _) || ended); [apply frozen_close|].
-      destruct (if x_pd s + size =? 0 then _ else _) as [pd' pu']. cbn [fst with_streams k_streams].
-      eapply frozen_update; eauto.
-    + destruct ended; [apply frozen_close|]. cbn [fst with_streams k_streams]. eapply frozen_update; eauto.
+  - apply data_frozen, I.
   - destruct (find_active sid (k_streams c)) as [s|]; [apply frozen_close|apply frozen_refl].
   - apply frozen_refl.
   - destruct ((0 <? id) && Z.even id); [apply frozen_close|].
@@ -450,6 +464,8 @@ Proof.
   - apply frozen_close.
   - apply frozen_close.
   - apply frozen_refl.
+  - apply data_frozen, I.
+  - destruct ((sid =? 4) && (2147483647 <? val)); [apply frozen_close|apply frozen_refl].
 Qed.
 
 Lemma settle_streams r : k_streams (fst (settle r)) = k_streams (fst r).
@@ -562,35 +578,40 @@ Proof.
   induction l as [|[[[a b] c] d] l IH]; cbn [flat_map length app]; lia.
 Qed.
 
-Definition tags_ok (ev : list ev4) : Prop := forall e, In e ev -> tag e <> 99.
+Definition tags_ok (ev : list ev4) : Prop := forall e, In e ev -> tag e <> 99 /\ tag e <> 77.
 Lemma tags_close p code u l : tags_ok (close_events p code u l).
-Proof. intros e H. apply close_events_in in H as [H _]. rewrite H. discriminate. Qed.
+Proof. intros e H. apply close_events_in in H as [H _]. rewrite H. split; discriminate. Qed.
 Lemma tags_app a b : tags_ok a -> tags_ok b -> tags_ok (a ++ b).
 Proof. intros A B e H. apply in_app_or in H as [H|H]; auto. Qed.
 Lemma tags_nil : tags_ok []. Proof. intros e []. Qed.
-Lemma tags_one a b c d : a <> 99 -> tags_ok [(a, b, c, d)].
-Proof. intros H e [<-|[]]. exact H. Qed.
+Lemma tags_one a b c d : a <> 99 -> a <> 77 -> tags_ok [(a, b, c, d)].
+Proof. intros H H' e [<-|[]]. split; [exact H|exact H']. Qed.
 Lemma tags_close_one c sid code u rst : tags_ok (snd (close_one c sid code u rst)).
 Proof.
   unfold close_one. cbn [snd]. apply tags_app; [apply tags_close|].
-  destruct (find_active sid (k_streams c)); [destruct rst|]; try apply tags_nil. apply tags_one. discriminate.
+  destruct (find_active sid (k_streams c)); [destruct rst|]; try apply tags_nil. apply tags_one; discriminate.
 Qed.
 Lemma tags_close_conn c : tags_ok (snd (close_conn c)).
 Proof. unfold close_conn. cbn [snd]. apply tags_app; [apply tags_close|apply tags_one; discriminate]. Qed.
 
+Lemma tags_data c sid size dlen padded ended : tags_ok (snd (data_step c sid size dlen padded ended)).
+Proof.
+  unfold data_step. destruct (find_active sid (k_streams c)) as [s|]; [|apply tags_nil].
+  destruct ((0 <? size) && _); [apply tags_close_one|].
+  destruct (negb (x_ng s =? -1)).
+  - destruct ((1024 <=? _) || ended); [apply tags_close_one|].
+    destruct (on_read _ _ _) as [pd' pu']. apply tags_nil.
+  - destruct (if padded then _ else _) as [pd' pu']. destruct ended; [apply tags_close_one|apply tags_nil].
+Qed.
+
 Lemma tags_exec c o : tags_ok (snd (exec_op c o)).
 Proof.
-  destruct o as [dl|sid ended fs|sid size ended|sid code| |id code|sid inc| |sid|ms]; cbn [exec_op].
+  destruct o as [dl|sid ended fs|sid size ended|sid code| |id code|sid inc| |sid|ms|sid dlen plen ended|sid val]; cbn [exec_op].
   - destruct (k_mode c =? 0); apply tags_one; discriminate.
   - destruct (find_active sid (k_streams c)) as [s|]; [|apply tags_nil].
     destruct (negb (meta_ok fs)); [apply tags_close_one|].
     destruct (headers_result s ended fs); try apply tags_nil. apply tags_close_one.
-  - destruct (find_active sid (k_streams c)) as [s|]; [|apply tags_nil].
-    destruct ((0 <? size) && _); [apply tags_close_one|].
-    destruct (negb (x_ng s =? -1)).
-    + destruct ((1024 <=? _) || ended); [apply tags_close_one|].
-      destruct (if x_pd s + size =? 0 then _ else _) as [pd' pu']. apply tags_nil.
-    + destruct ended; [apply tags_close_one|apply tags_nil].
+  - apply tags_data.
   - destruct (find_active sid (k_streams c)) as [s|]; [apply tags_close_one|apply tags_nil].
   - apply tags_nil.
   - destruct ((0 <? id) && Z.even id); [apply tags_close_conn|].
@@ -601,6 +622,8 @@ Proof.
   - apply tags_close_conn.
   - apply tags_close_one.
   - apply tags_nil.
+  - apply tags_data.
+  - destruct ((sid =? 4) && (2147483647 <? val)); [apply tags_close_conn|apply tags_nil].
 Qed.
 Lemma tags_settle r : tags_ok (snd r) -> tags_ok (snd (settle r)).
 Proof.
@@ -676,10 +699,40 @@ Proof.
   rewrite forallb_app. apply andb_true_iff. split; [|apply clauses_rst_run, Hd].
   cbn [forallb snd]. rewrite andb_true_r. repeat (apply andb_true_iff; split).
   - unfold R. rewrite run_ops_length, (decode_ops_length _ _ Hd). apply Nat.eqb_refl.
-  - apply forallb_forall. intros e H. apply negb_true_iff. apply Z.eqb_neq. apply T, H.
+  - apply forallb_forall. intros e H. apply negb_true_iff. apply Z.eqb_neq. apply (T e H).
   - apply forallb_forall. intros e H. destruct (Z.eqb_spec (tag e) 1) as [E|E]; [|reflexivity]. cbn [negb orb].
     apply Z.eqb_eq. apply P2, P3; auto.
   - apply forallb_forall. intros sid H. apply Z.eqb_eq, P2, H.
   - apply forallb_forall. intros e H. destruct (Z.eqb_spec (tag e) 1) as [E|E]; [|reflexivity]. cbn [negb orb].
     apply existsb_exists. exists (esid e). split; [apply P3; auto|apply Z.eqb_refl].
+  - apply forallb_forall. intros e H. apply negb_true_iff. apply Z.eqb_neq. apply (T e H).
+Qed.
+
+(* padding counts: a PADDED DATA frame whose total length (pad-length byte + data + padding) does
+   not fit the stream's receive window terminates the stream with Internal and
+   RST_STREAM(FLOW_CONTROL_ERROR), whatever part of it is padding *)
+Theorem padded_data_flow_control c sid dlen plen ended s :
+  find_active sid (k_streams c) = Some s -> 0 <= dlen -> 0 <= plen ->
+  stream_limit < x_pd s + (1 + dlen + plen) + x_pu s ->
+  exec_op c (OPadData sid dlen plen ended) = close_one c sid C_INTERNAL false (Some E_FLOW).
+Proof.
+  intros F D P H. cbn [exec_op]. unfold data_step. rewrite F.
+  destruct (Z.ltb_spec 0 (1 + dlen + plen)); [|lia].
+  destruct (Z.ltb_spec stream_limit (x_pd s + (1 + dlen + plen) + x_pu s)); [|lia]. reflexivity.
+Qed.
+(* ... and one that fits a gRPC stream gives the padding back at once (onRead of size - dlen) *)
+Theorem padded_data_accepted c sid dlen plen s :
+  find_active sid (k_streams c) = Some s -> x_ng s = -1 -> 0 <= dlen -> 0 <= plen -> 0 <= x_pd s ->
+  x_pd s + (1 + dlen + plen) + x_pu s <= stream_limit ->
+  exec_op c (OPadData sid dlen plen false) =
+  (with_streams c (update sid (set_fc (x_nb s) (x_pd s + dlen)
+                                 (if stream_limit / 4 <=? x_pu s + (1 + plen) then 0 else x_pu s + (1 + plen)))
+                          (k_streams c)), []).
+Proof.
+  intros F G D P Q H. cbn [exec_op]. unfold data_step, on_read. rewrite F, G. cbn [Z.eqb negb].
+  destruct (Z.ltb_spec stream_limit (x_pd s + (1 + dlen + plen) + x_pu s)); [lia|]. rewrite andb_false_r.
+  destruct (Z.eqb_spec (x_pd s + (1 + dlen + plen)) 0) as [E|E].
+  - lia.
+  - replace (1 + dlen + plen - dlen) with (1 + plen) by lia.
+    replace (x_pd s + (1 + dlen + plen) - (1 + plen)) with (x_pd s + dlen) by lia. reflexivity.
 Qed.
